@@ -70,7 +70,7 @@ plus three stated restrictions R1, R2, R3):
              smoke run of Celestial.propagateBulk without events.
   budget     more than ``max_calls`` calls on one path raise ContractBudget (an UnwindingFailure: nothing may be claimed); its ``log`` lets a
              harness decide whether the caller's restart loop stalled.
-  spacing    numpy.spacing(t) -> fresh eps, eps_lo <= eps <= eps_hi (for 8 <= t <= 2^20: 2^-49 .. 2^-33).
+  spacing    numpy.spacing(t) -> fresh eps, eps_lo <= eps <= eps_hi (default 2^-300 .. 2^-33: every spacing of a double in [0, 2^20]).
              R2: the calling code restarts at root + spacing(root); if root < the crossing the same crossing can
                  fire again (really: a chain of at most ~12 one-ulp restarts).  At most ``max_retrigger`` consecutive
                  re-triggers are explored; after that the solver's choice is constrained so that the restart lies
@@ -147,7 +147,7 @@ class SolveIvpContract:
     reachability guards and notes of a harness; oracles should be stated over what the analysed code returns.
     """
 
-    def __init__(self, steps=(2,), max_calls=8, max_retrigger=1, plateau=Fraction(2, 10 ** 15), eps_lo=Fraction(2) ** -49,
+    def __init__(self, steps=(2,), max_calls=8, max_retrigger=1, plateau=Fraction(2, 10 ** 15), eps_lo=Fraction(2) ** -300,
                  eps_hi=Fraction(2) ** -33, name="ivp"):
         self.steps = tuple(steps)
         self.max_calls = max_calls
@@ -362,3 +362,23 @@ class SolveIvpContract:
         res.message = {0: "The solver successfully reached the end of the integration interval.", 1: "A termination event occurred."}[status]
         res.nfev = res.njev = res.nlu = 0
         return res
+
+
+
+def sym_max(*args, **kw):
+    """builtin max on symbolic reals without forking (an if-then-else term); plain max otherwise."""
+    import z3
+
+    from .core import SReal, _real_term
+
+    if kw:
+        return max(*args, **kw)
+    if len(args) == 1:
+        args = tuple(args[0])
+    if not any(isinstance(a, SReal) for a in args):
+        return max(*args)
+    out = args[0] if isinstance(args[0], SReal) else SReal(_real_term(args[0]))
+    for a in args[1:]:
+        t = _real_term(a)
+        out = SReal(z3.If(out.t >= t, out.t, t))
+    return out
